@@ -60,6 +60,16 @@ def generate(rng, tier):
         bl = r.choice([0, 1, 2, 3, 7, 19, 100, 1001, 2**20, 2**21 - 1, r.below(2**21)])
         a = angle_rem(P, rem_class(r), bl)
         k = r.choice([1.0, 1.0, 2.0, 3.0, 4.0, 0.5, 7.0, 1e3, r.uniform(0.1, 50.0), r.logu(1e-3, 1e6)])
+        kc = r.below(4)
+        if kc == 0:
+            # decimal fractions (not dyadic: the f64 divisor sits a hair off the decimal) on small blade counts,
+            # and divisors chosen so that the quotient lands on a blade boundary: k = fl(blade / n)
+            k = r.choice([0.1, 0.2, 0.3, 0.7, 1.1, 0.9, 2.5, 0.05, 1.7, 3.3, 0.6])
+            if r.chance(0.5):
+                bl = r.choice([1, 2, 3, 5, 7, 11, 10, 33, 100])
+                a = angle_rem(P, r.choice([0.0, 0.0, 0.25, rem_class(r)]), bl)
+        elif kc == 1 and bl > 0:
+            k = float(bl) / float(r.choice([1, 2, 3, 5, 10, 11, 30, 100, 1 + r.below(1000)]))
         d0 = P.add('ADivF', 0, a, P.f(k)); d1 = P.add('ADivF', 1, a, P.f(k))
         preds = [('divf_total', [a, ['#', fb.bits(k)], d0]), ('bit_equal', [d0, d1]), ('canon_angle', [d0])]
         if k == 1.0:
